@@ -159,7 +159,8 @@ def variants_of(pool, root):
 OPS = ['prim_call', 'simple_customize', 'complex_customize', 'child_attrs', 'child_attrs_all', 'variant_of_variant',
        'array_wrap', 'mandatory_array', 'mandatory_complex', 'mandatory_simple', 'subclass', 'append_field',
        'insert_field', 'append_pending_field', 'append_to_derived_parent', 'variant_child_attrs_future',
-       'insert_pending_field']
+       'insert_pending_field', 'array_wrap_variant', 'array_wrap_simple_variant', 'iterable_wrap_variant',
+       'array_wrap_with_item_attrs']
 
 
 def apply_op(c, op, pool, step):
@@ -183,6 +184,14 @@ def apply_op(c, op, pool, step):
         out = c.run(P['V2'].customize, max_occurs=3)
     elif op == 'array_wrap':
         out = c.run(Array, P['Derived'], min_occurs=1)
+    elif op == 'array_wrap_variant':
+        out = c.run(Array, P['V1'])                      # an already customised class as item type
+    elif op == 'array_wrap_simple_variant':
+        out = c.run(Array, P['Str5'], max_occurs=3)
+    elif op == 'iterable_wrap_variant':
+        out = c.run(Iterable, P['V2'])
+    elif op == 'array_wrap_with_item_attrs':
+        out = c.run(P['ArrInt'].customize, serializer_attrs=dict(le=99))
     elif op == 'mandatory_array':
         out = c.run(Mandatory, P['ArrInt'])
     elif op == 'mandatory_complex':
@@ -317,3 +326,86 @@ def _diff(a, b):
 
 _mk_histories(1)
 _mk_histories(2)
+
+
+# ------------------------------------------------------------------------------------------ explicit field positions
+
+def spec_order(fields):
+    """Declaration order; a field with an explicit `order` is inserted at that index, explicit fields taken in
+    declaration order (list.insert semantics, as the class documentation of `order` says)."""
+    out = [k for k, v in fields if v.Attributes.order is None]
+    for k, v in fields:
+        if v.Attributes.order is not None:
+            out.insert(v.Attributes.order, k)
+    return out
+
+
+ORDER_CASES = {
+    'two_positions': lambda: [('a', Integer), ('b', Unicode(order=0)), ('c', Integer), ('d', Unicode(order=1))],
+    'same_position': lambda: [('a', Integer), ('b', Unicode(order=0)), ('c', Integer(order=0)), ('d', Date(order=0)), ('e', Unicode)],
+    'negative_and_late': lambda: [('p', Unicode(order=-1)), ('q', Integer), ('r', Integer(order=5)), ('s', Unicode(order=1)),
+                                  ('t', Integer), ('u', Date(order=2))],
+    'none': lambda: [('z', Integer), ('y', Unicode), ('x', Date), ('w', Boolean)],
+}
+
+_ORDER_SNIPPET = r'''
+import sys, logging, warnings
+warnings.filterwarnings('ignore'); logging.disable(logging.CRITICAL)
+sys.path.insert(0, %r)
+from contracts.c15_derivation import ORDER_CASES, TNS
+from spyne.model.complex import ComplexModel
+K = type(ComplexModel)('K', (ComplexModel,), {'__namespace__': TNS, '_type_info': ORDER_CASES[%r]()})
+V = K.customize(min_occurs=1)
+class Sub(K):
+    __namespace__ = TNS
+    extra = K
+print(','.join(K._type_info.keys()), ','.join(V._type_info.keys()), ','.join(Sub.get_flat_type_info(Sub).keys()))
+'''
+
+
+def _mk_order(case):
+    @obligation('C15.field_order.%s' % case, targets=['spyne.model.complex:ComplexModelMeta.__init__'],
+                bounded="three adversarial iteration orders for every set; 6 hash seeds in the native replay",
+                desc="fields with explicit positions (order=...): the class, its customised variant and a subclass list "
+                     "their fields in the documented order -- declaration order, explicit fields inserted at their index in "
+                     "declaration order -- whatever order sets iterate in (the metaclass is interpreted with an adversary "
+                     "fixing every set's iteration order; replay in fresh processes under different hash seeds)")
+    def ob(c):
+        import os
+        import subprocess
+        import sys
+        fields = ORDER_CASES[case]()
+        want = spec_order(fields)
+        if c.concrete:
+            root = os.path.dirname(os.path.dirname(os.path.abspath(__file__)))
+            outs = []
+            for seed in range(6):
+                env = dict(os.environ, PYTHONHASHSEED=str(seed), PYTHONDONTWRITEBYTECODE='1')
+                p = subprocess.run([sys.executable, '-c', _ORDER_SNIPPET % (root, case)], capture_output=True, env=env, timeout=120)
+                outs.append(p.stdout.decode().strip())
+            exp = ','.join(want)
+            c.check('class_created', all(outs), detail=outs[:2])
+            c.check('documented_field_order', all(o.split(' ')[0] == exp for o in outs), detail=(exp, sorted(set(outs))))
+            c.check('variant_and_subclass_follow', all(o.split(' ')[1] == exp and o.split(' ')[2] == exp + ',extra' for o in outs if o),
+                    detail=sorted(set(outs)))
+            return
+        for order in ('sorted', 'reversed', 'rotated'):
+            c.interp.set_order = order
+            out = c.run(type(ComplexModel), 'K_' + order, (ComplexModel,), {'__namespace__': TNS, '_type_info': ORDER_CASES[case]()})
+            c.check('class_created', out.returned, detail=repr(out))
+            if not out.returned:
+                return
+            K = out.value
+            got = list(K._type_info.keys())
+            c.check('documented_field_order', got == want, detail=(order, got, want))
+            v = c.run(K.customize, min_occurs=1)
+            s_ = c.run(type(ComplexModel), 'S_' + order, (K,), {'__namespace__': TNS, 'extra': Integer})
+            c.check('variant_and_subclass_follow', v.returned and list(v.value._type_info.keys()) == want and s_.returned and
+                    list(s_.value.get_flat_type_info(s_.value).keys()) == want + ['extra'],
+                    detail=(order, v.returned and list(v.value._type_info.keys()), repr(s_)[:200]))
+        c.interp.set_order = None
+    return ob
+
+
+for _c in ORDER_CASES:
+    _mk_order(_c)
